@@ -491,6 +491,9 @@ UNITS += [
     Unit("C19", "jsonargparse._core:ArgumentParser.parse_path", pp_setup, pp_post, pp_raises, expect_cover=("return", "raise:PathError", "raise:ArgumentError")),
 ]
 
+from contracts.check_type import check_type_unit  # noqa: E402
+UNITS.append(check_type_unit("C19"))
+
 VERIFIED_CALLEES = ("self._check_mode", "change_to_path_dir")
 LEVEL = "other"
 TECHNIQUE = "contract-based deductive verification (VCs from the real AST, z3/cvc5) + bounded run-time contract checking"
